@@ -230,6 +230,9 @@ does not depend on the iteration order of the set:
   stability of Python's sort has nothing to observe);
 * `from .m import N` inside the function binds `N` for the translation-time constants (`Rule.AND`), like a name of the
   module's namespace;
+* the parts of an f-string may raise (`f"{node.value()} {children[0]}"`): they are evaluated left to right, the first
+  exception ends the evaluation, then the texts are concatenated; a recursive call
+  in expression position may pass an object for a parameter `T | None` (`self.prefix(self)`: the argument is `some self`);
 * a `Py.SetOf` is not iterable in the subset (no `for`, no comprehension over it: the order would be observable).
 
 Anything outside the subset raises `Untranslatable` - the tie is then reported as broken (never silently skipped).
@@ -1037,7 +1040,7 @@ class Fn:
                 src = f"(List.filter (fun (p : {ety}) => {c.term}) {src})"
             return E(f"(List.map (fun (p : {ety}) => ({k.term}, {v.term})) {src})", f"List ({k.ty if '×' not in k.ty and '→' not in k.ty else paren(k.ty)} × {v.ty if '×' not in v.ty and '→' not in v.ty else paren(v.ty)})")
         if isinstance(node, ast.JoinedStr):
-            parts = []
+            parts, binds = [], []
             for v in node.values:
                 if isinstance(v, ast.FormattedValue):
                     if v.conversion not in (-1, 114) or v.format_spec is not None:
@@ -1055,10 +1058,21 @@ class Fn:
                         continue
                     v = v.value
                 e = self.ce(v)
-                if e.ty != "String" or not e.pure:
+                if e.ty != "String":
                     raise Untranslatable(f"f-string part of type {e.ty}: {ast.unparse(node)}")
+                if not e.pure:
+                    # a part that can raise: the parts are evaluated left to right, then concatenated
+                    binds.append((f"s{len(binds)}", e.term))
+                    parts.append(binds[-1][0])
+                    continue
                 parts.append(e.term)
-            return E("(" + " ++ ".join(parts) + ")" if parts else '""', "String")
+            body = "(" + " ++ ".join(parts) + ")" if parts else '""'
+            if binds:
+                body = f".ok {body}"
+                for nm, t in reversed(binds):
+                    body = f"({t} >>= fun {nm} => {body})"
+                return E(body, "String", False)
+            return E(body, "String")
         raise Untranslatable(f"expression {ast.unparse(node)}")
 
     def _pure_pair(self, node):
@@ -1735,6 +1749,8 @@ class Fn:
             a = self.ce(holes[pn])
             if a.ty in (f"Option {pt}", f"Option {paren(pt)}"):
                 a = self.bind1(a, lambda x: f"(Py.deref {x})", pt, partial=True)      # `None.method(...)` is an AttributeError
+            if pt in (f"Option {a.ty}", f"Option {paren(a.ty)}"):
+                a = self.bind1(a, lambda x: f"(some {x})", pt)       # an object passed for a parameter `T | None`
             if a.ty != pt:
                 raise Untranslatable(f"recursive call: argument for '{pn}' has type {a.ty} (expected {pt})")
             if a.pure:
